@@ -82,8 +82,17 @@ func (w *window) add(a uint64) {
 
 type result struct {
 	outs  []string
-	fail  string
+	fails []string // every distinct violated statement of the history, in order of appearance
 	kinds map[string]int
+}
+
+func (r *result) has(k string) bool {
+	for _, f := range r.fails {
+		if f == k {
+			return true
+		}
+	}
+	return false
 }
 
 func readGlobal(ctx *cstate.StateContext) *faucetsc.GlobalNode {
@@ -140,8 +149,8 @@ func run(h hist) result {
 		res.kinds["history-with-invalid-initial-config"]++
 	}
 	setFail := func(k string) {
-		if res.fail == "" && judged {
-			res.fail = k
+		if judged && !res.has(k) {
+			res.fails = append(res.fails, k)
 		}
 	}
 	for i, o := range h.Ops {
@@ -485,6 +494,7 @@ func main() {
 		"one request was refused and a client window was reopened or a refill/update succeeded; distinct by full history"
 	cf := &vh.CasesFile{Imports: []string{"Base.Corr", "Model.Faucet", "Corr.Faucet"}, CaseType: "fc_case", CheckFn: "fc_check"}
 
+	reported := map[string]bool{}
 	handle := func(h hist) {
 		res := run(h)
 		for k, n := range res.kinds {
@@ -495,15 +505,20 @@ func main() {
 		rep.Case(key(h), nontriv, h)
 		cf.Add(coqCase(h, res.outs))
 		rep.CaseInputs = append(rep.CaseInputs, h)
-		if res.fail != "" {
-			keep := vh.ShrinkIdx(len(h.Ops), func(keep []int) bool { return run(sub(h, keep)).fail == res.fail })
+		for _, f := range res.fails {
+			if reported[f] {
+				continue
+			}
+			reported[f] = true
+			f := f
+			keep := vh.ShrinkIdx(len(h.Ops), func(keep []int) bool { r2 := run(sub(h, keep)); return r2.has(f) })
 			h2 := sub(h, keep)
-			desc := "faucet " + res.fail
-			if res.fail == "limit-checked-with-pour-amount-not-poured-value" {
+			desc := "faucet " + f
+			if f == "limit-checked-with-pour-amount-not-poured-value" {
 				desc = "a pour with pour_amount < requested value < max_pour_amount exceeded the periodic/global limit or the faucet balance: " +
 					"validPourRequest compares pour_amount, pour moves the requested value"
 			}
-			rep.Violate("C17:"+res.fail, desc, h2)
+			rep.Violate("C17:"+f, desc, h2)
 		}
 	}
 	finish := func() {
